@@ -5,7 +5,9 @@ cd /verif
 for d in seeded/*/; do
   n=$(basename $d); p=${n%%-*}
   [ -f $d/patch.diff ] || continue
-  if ! git -C /repo apply --check /verif/$d/patch.diff 2>/dev/null; then
+  if [ -f /verif/$d/patch.rebased.diff ] && git -C /repo apply --check /verif/$d/patch.rebased.diff 2>/dev/null; then
+    PATCH=/verif/$d/patch.rebased.diff
+  elif ! git -C /repo apply --check /verif/$d/patch.diff 2>/dev/null; then
     if git -C /repo apply -3 /verif/$d/patch.diff >/dev/null 2>&1; then
       git -C /repo diff --cached > /tmp/rebased.diff; git -C /repo reset -q; git -C /repo checkout -- .
       cp /tmp/rebased.diff /verif/$d/patch.rebased.diff; PATCH=/verif/$d/patch.rebased.diff
